@@ -282,6 +282,23 @@ func TestC03(t *testing.T) {
 			overlay = false
 			Ev.Probe("overlay_avoided_known_inplace_shape")
 		}
+		if rapid.IntRange(0, 5).Draw(rt, "padgrows") == 0 && canPlace(pair.Old, "pad.bin") && canPlace(pair.New, "pad.bin") {
+			// a file of one repeated non-zero byte that grows: what follows the old end equals what
+			// came before it, at every offset
+			fill := byte(rapid.SampledFrom([]int{0x01, 0xaa, 0xff}).Draw(rt, "padbyte"))
+			mk := func(n int) []byte {
+				b := make([]byte, n)
+				for i := range b {
+					b[i] = fill
+				}
+				return b
+			}
+			on := rapid.SampledFrom([]int{100 * KiB, 128 * KiB, 200*KiB + 7, 256 * KiB}).Draw(rt, "padold")
+			pair.Old["pad.bin"] = &Entry{Kind: KFile, Data: mk(on)}
+			pair.New["pad.bin"] = &Entry{Kind: KFile, Data: mk(on + rapid.SampledFrom([]int{64 * KiB, 128 * KiB, 300*KiB + 1}).Draw(rt, "padgrowth"))}
+			pair.Meta["pad.bin"] = FileMeta{From: "pad.bin", Op: "constant fill grows"}
+			Ev.Probe("constant_fill_file_grows")
+		}
 		dir, cleanup := RunDir()
 		defer cleanup()
 		oldDir, newDir := filepath.Join(dir, "old"), filepath.Join(dir, "new")
